@@ -87,6 +87,11 @@ def shapes():
 
 
 FORMS = ('plain', 'nested', 'abs', 'real')
+# names with dots in the last component and in directory components; `.yaml` is appended to
+# the WHOLE name, so <stem>.yaml files lying around are decoys, never candidates
+DOTTED_FORMS = ('dotted', 'dotted-nested', 'dotted-abs')
+DOTTED_SHAPES = ('root', 'd1-default', 'd1-rfp-false', 'd1-parent-abs', 'd2-nested', 'd3-cascade',
+                 'cust-root-c19_loader')
 
 
 class Builder:
@@ -110,16 +115,27 @@ class Builder:
 
 
 def leaf_name(form):
-    return {'plain': 'leaf', 'nested': 'nd/leaf', 'abs': '$T/abs/leaf', 'real': 'donothing'}[form]
+    return {'plain': 'leaf', 'nested': 'nd/leaf', 'abs': '$T/abs/leaf', 'real': 'donothing',
+            'dotted': 'leaf.v2', 'dotted-nested': 'nd.x/leaf.step2',
+            'dotted-abs': '$T/abs.d/leaf.nightly'}[form]
 
 
 def leaf_rel(form):
     """file name of the leaf relative to a candidate directory"""
     return {'plain': 'leaf.yaml', 'nested': 'nd/leaf.yaml', 'abs': 'leaf.yaml',
-            'real': 'donothing.yaml'}[form]
+            'real': 'donothing.yaml', 'dotted': 'leaf.v2.yaml',
+            'dotted-nested': 'nd.x/leaf.step2.yaml', 'dotted-abs': 'leaf.nightly.yaml'}[form]
 
 
-def make_case(form, shape, present, subdir=None):
+def stem_rel(form):
+    """the file a loader that chops the name at its last dot would look for"""
+    return {'dotted': 'leaf.yaml', 'dotted-nested': 'nd.x/leaf.yaml', 'dotted-abs': 'leaf.yaml'}[form]
+
+
+ABS_DIR = {'abs': 'abs', 'dotted-abs': 'abs.d'}
+
+
+def make_case(form, shape, present, subdir=None, stems=False):
     """present: set of bits among par/cwd/sub/blt/oth/abs."""
     b = Builder()
     sd = subdir or 'pipelines'
@@ -147,10 +163,13 @@ def make_case(form, shape, present, subdir=None):
     for bit in ('par', 'oth', 'cwd', 'sub', 'blt'):
         if bit in present and bit in loc and not (form == 'real' and bit == 'blt'):
             b.add(loc[bit] + '/' + leaf_rel(form), leaf_calls)
-    if form == 'abs' and 'abs' in present:
-        b.add('abs/leaf.yaml', leaf_calls)
-    if form == 'abs':
-        b.dirs.add('abs')
+    if form in ABS_DIR and 'abs' in present:
+        b.add(ABS_DIR[form] + '/' + leaf_rel(form), leaf_calls)
+    if form in ABS_DIR:
+        b.dirs.add(ABS_DIR[form])
+    if stems:
+        for d in sorted(set(loc.values()) | ({ABS_DIR[form]} if form in ABS_DIR else set())):
+            b.add(d + '/' + stem_rel(form), [])
     for d in shape.get('decoys', []):
         b.add(d + '/' + leaf_rel(form), [])
     if shape.get('tail'):
@@ -163,7 +182,7 @@ def make_case(form, shape, present, subdir=None):
     inv.update(shape.get('inv') or {})
     inv.setdefault('loader', None)
     inv.setdefault('py_dir', None)
-    tags = ['form:' + form, 'shape:' + shape['tag'],
+    tags = ['form:' + form + ('+stem-decoys' if stems else ''), 'shape:' + shape['tag'],
             'present:' + (','.join(sorted(present)) or 'none')]
     return b.case(inv, builtin=None if form == 'real' else 'blt', subdir=subdir, tags=tags)
 
@@ -207,6 +226,19 @@ def grid():
                 subs = [set(), {'sub'}, set(bits) - {'cwd'}]
             for s in subs:
                 cases.append(make_case(form, shape, s))
+    for shape in shapes():
+        if shape['tag'] not in DOTTED_SHAPES:
+            continue
+        bits = list(BITS4) + (['oth'] if shape.get('oth') else [])
+        for form in DOTTED_FORMS:
+            if form == 'dotted' and shape['tag'] in ('root', 'd1-default'):
+                subs = list(subsets(BITS4))
+            else:
+                subs = [set(), {'cwd'}, {'par', 'sub'}, set(bits)]
+            for sset in subs:
+                for a in ((set(), {'abs'}) if form == 'dotted-abs' else (set(),)):
+                    for stems in (False, True):
+                        cases.append(make_case(form, shape, sset | a, stems=stems))
     cases += specials()
     return cases
 
@@ -270,7 +302,7 @@ def specials():
 
 DIR_POOL = ['cwd', 'cwd/pipelines', 'par', 'oth', 'blt', 'g0', 'cwd/nd', 'par/nd', 'cwd/oth',
             'x', 'x+q', 'cwd/q', 'g0/k', 'cwd/pipelines/nd', 'blt/nd']
-NAME_POOL = ['a', 'b', 'c', 'nd/d', 'nd/e', 'q+r', 'r', 'k/f']   # distinct base names: call graphs stay acyclic
+NAME_POOL = ['a', 'b', 'c', 'nd/d', 'nd/e', 'q+r', 'r', 'k/f', 'a.v2', 'nd/d.s1', 'n.d/g.h']   # distinct base names: call graphs stay acyclic
 
 
 def random_case(rng):
